@@ -51,14 +51,40 @@ impl<M: MagneticMoment> StandardizedMagneticCell<M> {
         let ref_space_group = magnetic_space_group.reference_space_group();
         let msg_type = get_magnetic_space_group_type(magnetic_space_group.uni_number)
             .ok_or(MoyoError::MagneticStandardizationError)?;
+        let is_type4 = msg_type.construct_type == ConstructType::Type4;
         let (ref_prim_operations, ref_prim_permutations) =
             Self::reference_symmetry_operations_and_permutations(
                 magnetic_symmetry_search,
                 msg_type.construct_type,
                 mag_symprec,
             );
+        // For type-IV groups the reference space group is the maximal space subgroup, which misses the
+        // anti-translation coset. Average positions over the anti-translation beforehand so that the
+        // standardized magnetic cell is invariant under all magnetic operations.
+        let mut prim_cell = prim_mag_cell.magnetic_cell.cell.clone();
+        if is_type4 {
+            if let Some((mops, permutation)) = magnetic_symmetry_search
+                .magnetic_operations
+                .iter()
+                .zip(magnetic_symmetry_search.permutations.iter())
+                .find(|(mops, _)| {
+                    mops.time_reversal && mops.operation.rotation == Matrix3::<i32>::identity()
+                })
+            {
+                let inv_perm = permutation.inverse();
+                prim_cell.positions = (0..prim_cell.num_atoms())
+                    .map(|i| {
+                        let mut frac_displacement = prim_cell.positions[inv_perm.apply(i)]
+                            + mops.operation.translation
+                            - prim_cell.positions[i];
+                        frac_displacement -= frac_displacement.map(|e| e.round()); // in [-0.5, 0.5]
+                        prim_cell.positions[i] + frac_displacement / 2.0
+                    })
+                    .collect();
+            }
+        }
         let ref_std_cell = StandardizedCell::new(
-            &prim_mag_cell.magnetic_cell.cell,
+            &prim_cell,
             &ref_prim_operations,
             &ref_prim_permutations,
             &ref_space_group,
